@@ -295,13 +295,18 @@ def step (o : O) (line : String) : O × String :=
       finish o1 o2 (some name)
     | "rawconn", [name] => finish o (newConn o name m)
     | "burst", name :: toks =>
+      if (idxOf o name).isNone then (o, "no-conn") else
       let (o1, ok) := feed o name toks
       if ok then finish o o1 else finish o o1 none "send-failed "
-    | "par", specs => finish o (parBursts o specs)
+    | "par", specs =>
+      if specs.any (fun sp => (idxOf o ((sp.splitOn ":").headD "")).isNone) then (o, "no-conn") else
+      finish o (parBursts o specs)
     | "ping", [name] =>
+      if (idxOf o name).isNone then (o, "no-conn") else
       let (o1, ok) := feed o name ["PING"]
       if ok then finish o o1 else finish o o1 none "send-failed "
     | "disc", [name] =>
+      if (idxOf o name).isNone then (o, "no-conn") else
       let (o1, _) := feed o name ["DISC"]
       let (o2, e1) := finish o o1
       let o3 := match idxOf o2 name with
@@ -312,7 +317,7 @@ def step (o : O) (line : String) : O × String :=
     | "close", [name] | "lclose", [name] =>
       match idxOf o name with
       | some i => finish o (envAct o i .peerClose)
-      | none => (o, "no-conn")
+      | none => (o, if op == "close" then "no-conn" else "bad-op")
     | "sleep", [ms] =>
       if natOf ms ≥ 5000 then
         let o1 := Id.run do
@@ -325,6 +330,9 @@ def step (o : O) (line : String) : O × String :=
     | "counts", [] => (o, s!"online={(o.conns.filter (·.st.registered)).length}")
     | "census", [] => (o, census o)
     | "lstop", [] =>
+      if (match m.find? (·.1 == "burst") with
+          | some (_, spec) => (idxOf o ((spec.splitOn ":").headD "")).isNone
+          | none => false) then (o, "no-conn") else
       let o0 := match m.find? (·.1 == "burst") with
         | some (_, spec) => quiesce (parBursts o [spec])
         | none => o
